@@ -46,7 +46,7 @@ RULE = (
   "batch; distinct = (scene, jacobian, first event, step, schedule)"
 )
 BOUNDS = {
-  "quick": "7 scenes dense (+stacked sparse), 7-8 events, 10 positions {0,5,8,9,10,12,16,20,21,26}, all placements of <=2 events, 46 steps; schedule family: 3 scenes x {desc, rot} on single-event traces",
+  "quick": "7 scenes dense (+stacked sparse), 7-8 events, 9 positions {0,5,8,9,10,12,16,20,26}, all placements of <=2 events, 46 steps; schedule family: 3 scenes x {desc, rot} on single-event traces",
   "thorough": "8 scenes dense (+4 sparse), full alphabet (11-12 events), first event at every step 0..29, second event at every later step within 16 steps, 46 steps; schedule family on all scenes",
 }
 ASSUMPTIONS = [
@@ -63,7 +63,9 @@ NSTEP = 46
 MINAWAKE = 10
 K_AWAKE = -(1 + MINAWAKE)
 TOL = 0.01
-QUICK_POS = (0, 5, 8, 9, 10, 12, 16, 20, 21, 26)
+BOUNDARY = 1e-5
+BOUNDARY_WINDOW = 12  # a flipped contact/limit changes the island, which shows as a sleep-time difference within one countdown
+QUICK_POS = (0, 5, 8, 9, 10, 12, 16, 20, 26)
 SCENES = ("apart", "stacked", "connect", "connect_off", "tendon", "tendon_slack", "motor_stacked", "weld")
 QUICK_SCENES = SCENES[:7]
 SPARSE_QUICK = ("stacked",)
@@ -504,6 +506,10 @@ def _run_c(scn, trace):
   for t, e in trace:
     by_step.setdefault(t, []).append(e)
   out = np.zeros((NSTEP, mjm.ntree), np.int32)
+  boundary = np.zeros(NSTEP, bool)
+  gids = [mujoco.mj_name2id(mjm, mujoco.mjtObj.mjOBJ_GEOM, n) for n in ("ga", "gb", "gc")]
+  lim = [t for t in range(mjm.ntendon) if mjm.tendon_limited[t]]
+  prev_slack = None
   dirty = False
   for k in range(NSTEP):
     evs = by_step.get(k, [])
@@ -527,41 +533,76 @@ def _run_c(scn, trace):
       dirty = bool(np.any(xfrc != 0) or np.any(qfrc != 0))
     mujoco.mj_step(mjm, mjd)
     out[k] = mjd.tree_asleep
-  return out, util.mj_warnings(mjd)
+    # boundary rule (DESIGN 3): an inclusion predicate of the reference within 1e-5 of flipping (contact between two
+    # trees about to appear/vanish, tendon limit about to switch) makes the continuation a don't-care
+    for g1, g2 in ((gids[0], gids[1]), (gids[0], gids[2]), (gids[1], gids[2])):
+      if abs(mujoco.mj_geomDistance(mjm, mjd, g1, g2, 0.01, None)) < BOUNDARY:
+        boundary[k] = True
+    if lim:
+      slack = np.array([mjm.tendon_range[t, 1] - mjd.ten_length[t] for t in lim])
+      if np.any(np.abs(slack) < BOUNDARY) or (prev_slack is not None and np.any(np.sign(slack) != np.sign(prev_slack))):
+        boundary[k] = True
+      prev_slack = slack
+  return out, boundary, util.mj_warnings(mjd)
 
 
-def _lockstep(c, label, trace, sw, sc, counts):
-  """Compares the awake series of one trace (sw, sc: [NSTEP, nt] tree_asleep) under the +-2 step rule."""
+def _direct(ev):
+  """Trees whose wake-up by this event is discrete (no threshold involved)."""
+  kind, _, arg = ev.partition(":")
+  if kind in ("xfrc", "qfrc", "kick", "tiny"):
+    return {int(arg)}
+  if kind == "eq":
+    return {0, 1}
+  return {0, 2}  # drop: C gets a velocity and overlaps A by 2 mm
+
+
+def _lockstep(c, label, trace, sw, sc, boundary, counts):
+  """Compares the awake series of one trace (sw, sc: [NSTEP, nt] tree_asleep).
+
+  Allowed: runs of <=2 steps in which the engines disagree about a tree (threshold crossings: a velocity falling below
+  the tolerance, a contact or tendon limit appearing one step apart; MJWarp evaluates sleeping after, MuJoCo before the
+  integration).  Not allowed: a longer run, or a tree directly hit by a discrete perturbation waking in one engine only.
+  """
   nt = sw.shape[1]
   aw, ac = sw < 0, sc < 0
-  ev_steps = {t for t, _ in trace}
+  direct = {}
+  for t, e in trace:
+    direct.setdefault(t, set()).update(_direct(e))
   run = np.zeros(nt, int)
   for k in range(NSTEP):
-    if k in ev_steps and k > 0 and np.any(aw[k - 1] != ac[k - 1]):
+    if k in direct and k > 0 and np.any(aw[k - 1] != ac[k - 1]):
       counts["lockstep_desync"] += 1
       return False
     for t in range(nt):
       if aw[k, t] == ac[k, t]:
         if run[t]:
-          off = run[t] if not aw[k - 1, t] else -run[t]  # >0: MJWarp slept earlier
-          counts[f"sleep_offset_{off:+d}"] = counts.get(f"sleep_offset_{off:+d}", 0) + 1
+          kind = "sleep" if not aw[k, t] else "wake"
+          # for a sleep run the engine that was already asleep went first; for a wake run the one already awake
+          first = ("W" if not aw[k - 1, t] else "C") if kind == "sleep" else ("W" if aw[k - 1, t] else "C")
+          key = f"{kind}_first_in_{'MJWarp' if first == 'W' else 'MuJoCo'}_by_{int(run[t])}"
+          counts[key] = counts.get(key, 0) + 1
         run[t] = 0
         continue
-      if run[t] == 0:
-        prev_w = aw[k - 1, t] if k else True
-        prev_c = ac[k - 1, t] if k else True
-        if not (prev_w and prev_c):
+      if run[t] == 0 and k in direct and t in direct[k]:
+        prev = aw[k - 1, t] if k else True
+        if not prev:  # both were asleep: the perturbation must wake the tree in both engines in this very step
           who = "MJWarp" if aw[k, t] else "MuJoCo"
-          c.fail(f"lockstep:wake_only_in_{who}", f"trace {label} step {k}: tree {t} woke up only in {who} (MJWarp tree_asleep {sw[k].tolist()}, MuJoCo {sc[k].tolist()})")
+          c.fail(f"lockstep:perturbation_woke_only_{who}", f"trace {label} step {k}: tree {t} was woken by the event only in {who} (MJWarp tree_asleep {sw[k].tolist()}, MuJoCo {sc[k].tolist()})")
           return False
       run[t] += 1
       if run[t] > 2:
+        if np.any(boundary[max(0, k - BOUNDARY_WINDOW) : k + 1]):
+          counts["lockstep_boundary"] += 1
+          return False
         who = "MuJoCo" if aw[k, t] else "MJWarp"
         c.fail(f"lockstep:asleep_only_in_{who}", f"trace {label} step {k}: tree {t} asleep only in {who} for more than 2 steps (MJWarp {sw[k].tolist()}, MuJoCo {sc[k].tolist()})")
         return False
     if np.all(aw[k] == ac[k]) and np.any(~aw[k]):
       pw, pc = _cycles(sw[k]), _cycles(sc[k])
       if pw != pc:
+        if np.any(boundary[max(0, k - BOUNDARY_WINDOW) : k + 1]):
+          counts["lockstep_boundary"] += 1
+          return False
         c.fail("lockstep:cycles", f"trace {label} step {k}: sleeping cycles {pw} vs MuJoCo {pc}")
         return False
   return True
@@ -593,7 +634,7 @@ def execute(scn):
     return dict(ok=True, nontrivial=False, outcome="reference_accepts_teneq")
 
   c = util.Cmp()
-  counts = dict(states=0, transitions=0, traces_validated_against_impl=0, lockstep_desync=0, extra_evaluations=0)
+  counts = dict(states=0, transitions=0, traces_validated_against_impl=0, lockstep_desync=0, lockstep_boundary=0, extra_evaluations=0)
   if fam == "sched":
     tier = scn["tier"]
     pos = QUICK_POS if tier == "quick" else tuple(range(0, 30, 3))
@@ -619,11 +660,11 @@ def execute(scn):
   sw, mon, _ = _run_w(scn, traces, monitor=True, c=c)
   degenerate = 0
   for w, tr in enumerate(traces):
-    sc, warn = _run_c(scn, tr)
+    sc, boundary, warn = _run_c(scn, tr)
     if warn:
       degenerate += 1
       continue
-    if _lockstep(c, mon.labels[w], tr, sw[:, w], sc, counts):
+    if _lockstep(c, mon.labels[w], tr, sw[:, w], sc, boundary, counts):
       counts["traces_validated_against_impl"] += 1
   counts.update(states=len(mon.states), transitions=NSTEP * len(traces), extra_evaluations=len(traces) - 1, degenerate_reference=degenerate, iteration_limit_hits=mon.iter_hits)
   nontrivial = mon.nsleep > 0 and mon.nwake > 0
